@@ -43,6 +43,13 @@ PROP = [  # substring of the commit subject -> property whose check found it, wh
  ("scalar() and histogram_quantile() are evaluated over the union", "C10", "scalar(m3) over 4 partitions: NaN per partition, duplicate {} series"),
  ("aggregations whose parameter reads series", "C10", "bottomk(scalar(m2), m1) pushed down whole"),
  ("two series with the same labels at one step", "C08", "abs({a=\"x\"}) over m1{a=x,b=y} and m2{a=x,b=y}: reference fails with 'vector cannot contain metrics with the same labelset'"),
+ ("series with equal labels are merged", "C19", "clamp({__name__=~\"m.*\"}, ...) over two series that take turns over time: the label set {b=\"x\"} twice in one matrix"),
+ ("results of the fallback path stay valid", "C20", "irate(m1[5m]) unless m3 (fallback): points of the kept result overwritten after Close and a later query (Prometheus' point pool)"),
+ ("equal labels across partitions fail", "C10", "changes({__name__=~\"m.*\"}[1s]) over 3 partitions: central engine fails with duplicate labelset, distributed returned both"),
+ ("selects below a step-invariant part", "C16", "quantile(scalar(m3), m1 @ start()): select of m3 hinted end=start instead of the query's end"),
+ ("timestamp() selects the time range it reads", "C16", "timestamp(m2 @ 74.336 offset 7s) with a storage trimming to the hinted range returned nothing"),
+ ("histogram_quantile gathers buckets per metric name", "C06", "histogram_quantile(1, {__name__=~\"h.*_bucket\"}) merged two histograms; reference fails with duplicate labelset"),
+ ("unary minus rejects equal output labels", "C01", "-{__name__=~\"m.*\"} with samples at different steps: reference fails, engine merged"),
  ("range functions fail on equal output labels", "C03", "delta({__name__=~\"m.*\"}[30s]) with samples of the two series at different steps"),
 ]
 log = subprocess.run("git -C /repo log --reverse --format='%h %s'", shell=True, capture_output=True, text=True).stdout.strip().split("\n")
